@@ -163,9 +163,12 @@ fn authenticate_message(lm_challenge_response: &[u8], nt_challenge_response:&[u8
 fn get_payload_field(message: &Component, length: u16, buffer_offset: u32) -> RdpResult<&[u8]> {
     let payload = cast!(DataType::Slice, message["Payload"])?;
     let offset = message.length() as usize - payload.len();
-    let start = buffer_offset as usize - offset;
+    // Offset and length come from the peer : they have to address bytes inside the payload
+    let start = (buffer_offset as usize).checked_sub(offset).ok_or(
+        Error::RdpError(RdpError::new(RdpErrorKind::InvalidSize, "NTLM: buffer offset points into the message header"))
+    )?;
     let end = start + length as usize;
-    Ok(&payload[start..end])
+    payload.get(start..end).ok_or(Error::RdpError(RdpError::new(RdpErrorKind::InvalidSize, "NTLM: buffer is outside of the message payload")))
 }
 
 
@@ -553,7 +556,7 @@ impl AuthenticationProtocol  for Ntlm {
             target_info[&AvId::MsvAvTimestamp].clone()
         }
         else {
-            panic!("no timestamp available")
+            return Err(Error::RdpError(RdpError::new(RdpErrorKind::NotImplemented, "NTLM: challenge without timestamp is not supported")))
         };
 
         // generate client challenge
